@@ -276,6 +276,10 @@ func (tt *TermTable) Bin(op Op, a, b *Term) *Term {
 		if op == OpAdd && a.Op == OpAdd && a.B.IsConst() {
 			return tt.Bin(OpAdd, a.A, tt.Const(a.B.K+k, w))
 		}
+		// (x ^ c1) ^ c2 = x ^ (c1^c2)
+		if op == OpXor && a.Op == OpXor && a.B.IsConst() {
+			return tt.Bin(OpXor, a.A, tt.Const(a.B.K^k, w))
+		}
 		if op == OpSub {
 			return tt.Bin(OpAdd, a, tt.Const(-k, w))
 		}
@@ -296,6 +300,25 @@ func (tt *TermTable) Bin(op Op, a, b *Term) *Term {
 			return a
 		case OpXor, OpSub:
 			return tt.Const(0, w)
+		}
+	}
+	if op == OpXor {
+		// (x ^ m) ^ m = x (masks applied and removed again: QUIC header protection, IV xor)
+		if a.Op == OpXor {
+			if a.A == b {
+				return a.B
+			}
+			if a.B == b {
+				return a.A
+			}
+		}
+		if b.Op == OpXor {
+			if b.A == a {
+				return b.B
+			}
+			if b.B == a {
+				return b.A
+			}
 		}
 	}
 	return tt.mk(op, w, a, b, nil, 0, "")
